@@ -174,6 +174,10 @@ func runC01(c *wk.Ctx) {
 	}
 	n := c.N(40000, 6000000)
 	typed := c01Typed(wk.NewRand(c.Seed, "C01-typed", 0))
+	if c.Mine(0) {
+		c.Begin(0, "directed: one struct-mapped member under several keys of an inlined one-of")
+		c01AliasedInlined(c)
+	}
 	c.Cases(n, func(idx int64, r *wk.Rand) {
 		var sub c01Subject
 		if tricky := gen.TrickyShapes(); idx%25 == 1 && idx/25 < int64(40*len(tricky)) {
@@ -392,3 +396,65 @@ func c01Chain(c *wk.Ctx, sub c01Subject, descr string, in any, viaCBOR bool) {
 }
 
 func init() { register("C01", runC01) }
+
+// c01AliasedInlined: an inlined one-of whose keys are aliases of ONE struct-mapped member (the discriminator is a
+// field of the struct, so the value itself remembers which key was used). Whatever key the input uses comes back from
+// the round trip, in memory and over CBOR.
+func c01AliasedInlined(c *wk.Ctx) {
+	prop := func(t schema.Type, req bool) *schema.PropertySchema {
+		return schema.NewPropertySchema(t, nil, req, nil, nil, nil, nil, nil)
+	}
+	member := func() *schema.ObjectSchema {
+		return schema.NewStructMappedObjectSchema[gen.P4]("K", map[string]*schema.PropertySchema{
+			"kind": prop(schema.NewStringSchema(nil, nil, nil), true), "x": prop(schema.NewIntSchema(nil, nil, nil), false)})
+	}
+	m := member()
+	oneOf := schema.NewOneOfStringSchema[any](map[string]schema.Object{"k8s": m, "kubernetes": m, "kube": m}, "kind", true)
+	types := map[string]schema.Type{
+		"the one-of itself":    oneOf,
+		"a list of the one-of": schema.NewListSchema(oneOf, nil, nil),
+	}
+	for name, t := range types {
+		for _, key := range []string{"k8s", "kubernetes", "kube"} {
+			var raw any = map[string]any{"kind": key, "x": int64(3)}
+			if name != "the one-of itself" {
+				raw = []any{raw, map[string]any{"kind": "kube", "x": int64(1)}}
+			}
+			w := map[string]any{"schema": name + " {k8s, kubernetes, kube -> one struct-mapped object}", "input": cmpx.Canon(raw)}
+			c.Count("chains")
+			c.Eval(wk.Hash64("aliased-inlined", name, key), true)
+			var v, ser, v2, v3 any
+			var err error
+			if p, site, msg, _ := wk.Guard(func() {
+				if v, err = t.Unserialize(cmpx.DeepCopy(raw)); err != nil {
+					return
+				}
+				if err = t.Validate(v); err != nil {
+					return
+				}
+				if ser, err = t.Serialize(v); err != nil {
+					return
+				}
+				if v2, err = t.Unserialize(cmpx.DeepCopy(ser)); err != nil {
+					return
+				}
+				var viaCBOR any
+				if viaCBOR, err = gen.ViaCBOR(ser); err != nil {
+					return
+				}
+				v3, err = t.Unserialize(viaCBOR)
+			}); p {
+				c.Violation("C01:panic:"+site, "the round trip of an aliased inlined one-of panicked: "+msg, w)
+				continue
+			}
+			if err != nil {
+				c.Violation("C01:aliased-inlined-one-of:chain-fails", fmt.Sprintf("a step of U -> Validate -> S -> U -> U(cbor) failed: %v", err), w)
+				continue
+			}
+			if cmpx.Canon(v) != cmpx.Canon(v2) || cmpx.Canon(v) != cmpx.Canon(v3) {
+				w["unserialized"], w["serialized"], w["reunserialized"], w["after_cbor"] = cmpx.Canon(v), cmpx.Canon(ser), cmpx.Canon(v2), cmpx.Canon(v3)
+				c.Violation("C01:roundtrip-native-differs:aliased-inlined-one-of", "Unserialize(Serialize(v)) differs from v: the key the input used does not come back", w)
+			}
+		}
+	}
+}
